@@ -356,6 +356,11 @@ func check(rep *hx.Report, w *world.World, cn *conn, a *abs, name, text string, 
 		}
 	case (name == "CLOSE" || name == "UNSELECT") && r.OK():
 		a.selected, a.ro = false, false
+		// after CLOSE / UNSELECT no mailbox is selected, whichever way it had been opened: a FETCH must be refused
+		if f := cn.c.Cmd("FETCH 1 (UID)"); f.OK() || hasData(f) {
+			rep.Violate("impl-violation", "protocol state machine (Props.C06: CLOSE / UNSELECT leave nothing selected)", fmt.Sprintf("%s connection: after %q (answered %q) a FETCH 1 (UID) is answered %q", cn.kind, text, r.Tagged, f.Tagged), replay)
+			return
+		}
 	}
 }
 
